@@ -486,6 +486,79 @@ Proof.
         -- simpl in E. inversion E; subst. inversion Hpre; subst. exists pre, i', post. auto.
 Qed.
 
+(* ================================================================== *)
+(* the status entry only: no other member of credentialStatus decides    *)
+(* ================================================================== *)
+Section StatusEntryOnly.
+Variable poseidon : list Z -> Z.
+Variable q : Z.
+Variable reg : registry.
+Variable json_rt : Z -> option Z.
+
+(* what the verifier extracts from the credentialStatus object is determined by its `type` and
+   `revocationNonce` members alone *)
+Theorem decode_cs_entry_only : forall f f' o o' cs cs',
+  jget "type" o = jget "type" o' -> jget "revocationNonce" o = jget "revocationNonce" o' ->
+  decode_cs f json_rt o = Some cs -> decode_cs f' json_rt o' = Some cs' -> cs = cs'.
+Proof.
+  intros f f' o o' cs cs' Ht Hn H H'.
+  destruct f as [|f]; [discriminate|]. destruct f' as [|f']; [discriminate|].
+  simpl in H, H'. rewrite <- Ht, <- Hn in H'.
+  destruct (j_string (jget "id" o)); [|discriminate].
+  destruct (j_string (jget "id" o')); [|discriminate].
+  destruct (j_string (jget "type" o)) as [ty|]; [|discriminate].
+  destruct (j_uint64 json_rt (jget "revocationNonce" o)) as [n|]; [|discriminate].
+  assert (A : cs = mkcs ty n).
+  { destruct (jget "statusIssuer" o) as [[| | |si|]|]; try discriminate; try (inversion H; reflexivity).
+    destruct (decode_cs f json_rt si); [inversion H; reflexivity|discriminate]. }
+  assert (B : cs' = mkcs ty n).
+  { destruct (jget "statusIssuer" o') as [[| | |si|]|]; try discriminate; try (inversion H'; reflexivity).
+    destruct (decode_cs f' json_rt si); [inversion H'; reflexivity|discriminate]. }
+  congruence.
+Qed.
+
+(* ... hence so is the verdict of validateAuthClaimRevocation: two status objects that both
+   decode and agree on `type` and `revocationNonce` get the same answer, whatever their id,
+   statusIssuer or unknown members are *)
+Theorem status_entry_only : forall f f' o o' cs cs' auth,
+  jget "type" o = jget "type" o' -> jget "revocationNonce" o = jget "revocationNonce" o' ->
+  decode_cs f json_rt o = Some cs -> decode_cs f' json_rt o' = Some cs' ->
+  validate_auth_revocation poseidon q reg (status_of_json f json_rt o) auth =
+  validate_auth_revocation poseidon q reg (status_of_json f' json_rt o') auth.
+Proof.
+  intros f f' o o' cs cs' auth Ht Hn H H'. unfold status_of_json. rewrite H, H'.
+  rewrite (decode_cs_entry_only f f' o o' cs cs' Ht Hn H H'). reflexivity.
+Qed.
+
+(* a nested statusIssuer entry is never a fallback: adding a (decodable) one changes nothing *)
+Theorem status_issuer_never_a_fallback : forall f o si auth,
+  jget "statusIssuer" o = None -> decode_cs f json_rt si <> None ->
+  validate_auth_revocation poseidon q reg
+    (status_of_json (S f) json_rt (("statusIssuer"%string, JObj si) :: o)) auth =
+  validate_auth_revocation poseidon q reg (status_of_json (S f) json_rt o) auth.
+Proof.
+  intros f o si auth Hno Hsi. unfold status_of_json. f_equal. f_equal. simpl. rewrite Hno.
+  destruct (decode_cs f json_rt si); [reflexivity|contradiction].
+Qed.
+
+(* the seeded change C07-q as a function: when the entry's validation fails with anything but
+   "revoked", validate the nested entry instead *)
+Definition validate_auth_revocation_with_fallback (primary : cred_status) (nested : option cred_status)
+    (auth : claim) : res unit :=
+  if negb (cs_nonce primary =? claim_nonce auth) then Err ENonce else
+  match validate_status poseidon q reg primary with
+  | Ok _ => Ok tt
+  | Err t =>
+      if String.eqb t ERevoked then Err t else
+      match nested with
+      | Some n => _ <- validate_status poseidon q reg n ;; Ok tt
+      | None => Err t
+      end
+  | Panic w => Panic w
+  | Diverge => Diverge
+  end.
+End StatusEntryOnly.
+
 (* getIden3StateInfo2023FromDIDDocument: the FIRST Iden3StateInfo2023 entry decides, whatever
    precedes or follows it *)
 Theorem state_info_first : forall pre p post,
